@@ -47,6 +47,9 @@ func main() {
 			scenBudget(rng, tr, i, *events)
 		case "hostile":
 			scenHostile(rng, tr, i, *events)
+		case "hostileslow":
+			hostileSlow = true
+			scenHostile(rng, tr, i, *events)
 		default:
 			panic("unknown mode " + *mode)
 		}
